@@ -25,10 +25,11 @@ TSYNC, LOG = 1, 2
 
 C09_THEOREMS = ["C09_load_nil_in_force", "C09_load_unattached_is_error", "C09_declined_unknown_flags", "C09_declined_oversize",
                 "C09_declined_unprivileged", "C09_declined_bad_program", "C09_declined_thread_sync",
-                "C09_assemble_fail_no_effect", "C09_supported_pure", "C09_supported_answers", "C09_histories_wellformed"]
+                "C09_assemble_fail_no_effect", "C09_supported_pure", "C09_supported_answers", "C09_histories_wellformed",
+                "C09_gated_kernel_agrees_where_open", "C09_refused_by_earlier_filter_is_error", "C09_supported_pure_gated"]
 C10_THEOREMS = ["C10_tsync_covers_all", "C10_covered_preserved", "C10_no_tsync_untouched", "C10_flag_passthrough"]
 C11_THEOREMS = ["C11_nnp_before_install_same_thread", "C11_unprivileged_can_load", "C11_nnp_untouched",
-                "C11_unprivileged_without_nnp_fails", "C11_unpinned_refuted"]
+                "C11_unprivileged_without_nnp_fails", "C11_bit_refused_means_no_install", "C11_unpinned_refuted"]
 
 # kinds of differences reported by LoaderReplay.replay that each property speaks about (DESIGN 5.4)
 DIFF_KINDS = {
@@ -173,8 +174,9 @@ Definition gen_lc : lconsts :=
                  lc_pr_set_nnp := tc_prSetNoNewPrivs t; lc_tsync := tc_FilterFlagTSync t; lc_log := tc_FilterFlagLog t |}
   | None => {| lc_set_mode_strict := 99; lc_set_mode_filter := 99; lc_pr_set_nnp := 99; lc_tsync := 99; lc_log := 99 |}
   end.
-Definition kload := load_sem kstate do_seccomp do_prctl seccomp_funs gen_lc.
-Definition ksupported := supported_sem kstate do_seccomp do_prctl seccomp_funs gen_lc.
+(* the kernel on which observed histories are replayed filters the loader's own system calls too (KernelState: gate) *)
+Definition kload := load_sem kstate do_seccomp_g do_prctl_g seccomp_funs gen_lc.
+Definition ksupported := supported_sem kstate do_seccomp_g do_prctl_g seccomp_funs gen_lc.
 Definition ot (t m c:N) (n:bool) (a:option (list N)) : obs_thread := {| o_tid := t; o_mode := m; o_count := c; o_nnp := n; o_active := a |}.
 Definition sf (c jt jf k:N) : sock_filter := {| sf_code := c; sf_jt := jt; sf_jf := jf; sf_k := k |}.
 Definition fl (nnp:bool) (flag:N) (p:res (list instr)) : filt := {| f_nnp := nnp; f_flag := flag; f_prog := p |}.
@@ -293,16 +295,16 @@ def replay_in_coq(ctx, gen, obs):
 
 # ------------------------------------------------------------------------------------------------ direct checks
 # policies of the history language: SILENT ones are valid but cannot answer the probe (their presence shows in the task's
-# filter count only); DENY ones make seccomp(2) itself fail for the thread from then on. Histories that use either are
-# judged by the direct rules only (the kernel model does not run filters on the loader's own system calls).
+# filter count only); the deny* ones make seccomp(2) / prctl(2) itself fail for the thread from then on. The direct rules
+# skip the probe-based judgements for them; the model replay handles them like any other (it runs the programs).
 SILENT = ("nonames", "allowall", "denyseccomp", "denyseccomp38", "denyprctl")
 VALID = ("ok", "big", "mid", "midnames") + SILENT
 
 
 def uses_silent(h):
-    """... or loads one filter index more than once (the replay identifies a filter by its index)"""
-    loads = [s["op"] for s in h["steps"].values() if s["op"] and s["op"][0] == "load"]
-    return any(op[5] in SILENT for op in loads) or len(set(op[1] for op in loads)) != len(loads)
+    """Histories the model cannot replay. None any more: the replay decides which installed filters answer their probe
+    by running the programs, and the kernel model filters seccomp(2) and prctl(2) themselves (KernelState.gate)."""
+    return False
 
 
 def load_steps(h):
